@@ -260,12 +260,24 @@ def e1_capacity_reestablished(F, r):
     """every node holds at most its capacity: (a) every function that re-assigns an elite's capacity truncates afterwards, the truncation keeps len <= capacity;
     (b) after construction the network creates and resizes node storages with config.node_size; (c) grown nodes use the network's storage factory"""
     from .. import ordeval as oe
-    # (a) writers of max_population_size
+    # (a) the capacity field is the Elitism field the stored individuals are truncated to (found, not named: a private field may be renamed)
+    cap_fields = set()
+    for fid, fn in F.fns.items():
+        if "::promoted[" in fid or not fid.startswith(ELIT):
+            continue
+        for _, t in mir.calls(fn):
+            if t["callee"].endswith("Vec::<T, A>::truncate") and len(t["args"]) == 2:
+                for k, v, p in mir.trace(fn, t["args"][1]):
+                    if p:
+                        cap_fields.add(p[-1])
+    if len(cap_fields) != 1:
+        raise AnchorError(f"Elitism: the capacity field (argument of truncate) is not unique: {sorted(cap_fields)}")
+    cap = next(iter(cap_fields))
     n = 0
     for fid, fn in sorted(F.fns.items()):
         if "::promoted[" in fid or not fid.startswith(ELIT):
             continue
-        stores = [(bi, st) for bi, si, st in mir.stmts(fn) if mir.proj_fields(st["d"]) and mir.proj_fields(st["d"])[-1][1] == "max_population_size" and mir.proj_fields(st["d"])[-1][0].endswith("::Elitism")]
+        stores = [(bi, st) for bi, si, st in mir.stmts(fn) if mir.proj_fields(st["d"]) and mir.proj_fields(st["d"])[-1][1] == cap and mir.proj_fields(st["d"])[-1][0].endswith("::Elitism")]
         if not stores:
             continue
         n += 1
@@ -281,15 +293,15 @@ def e1_capacity_reestablished(F, r):
             else:
                 r.ok(f"{name}: capacity", "re-assignment is followed by the truncation on every path")
     if n < 1:
-        raise AnchorError("no function re-assigns Elitism.max_population_size")
+        raise AnchorError(f"no function re-assigns the elite capacity field `{cap}`")
     em = [i for i in F.fns if i.startswith(ELIT) and i.endswith("::ensure_max_population_size")]
     if len(em) == 1:
         efn = F.fns[em[0]]
         tr = [t for _, t in mir.calls(efn) if t["callee"].endswith("Vec::<T, A>::truncate")]
-        if tr and any(p and p[-1] == "max_population_size" for k, v, p in mir.trace(efn, tr[0]["args"][1])):
-            r.ok("Elitism::ensure_max_population_size", "truncate(max_population_size)")
+        if tr and any(p and p[-1] == cap for k, v, p in mir.trace(efn, tr[0]["args"][1])):
+            r.ok("Elitism::ensure_max_population_size", f"truncate({cap})")
         else:
-            r.fail("Elitism::ensure_max_population_size", "the truncation no longer cuts to max_population_size", F.loc(em[0]))
+            r.fail("Elitism::ensure_max_population_size", "the truncation no longer cuts to the capacity field", F.loc(em[0]))
     # (b) Network::new ends with node_size everywhere
     nn = [i for i in F.fns if i.startswith("rosomaxa::algorithms::gsom::network::Network") and i.endswith("::new") and F.fns[i]["kind"] != "Closure" and "::promoted[" not in i]
     if len(nn) != 1:
